@@ -698,7 +698,7 @@ func (e *env) c05() {
 // C09: direct mate / stalemate tests.
 
 func (e *env) c09() {
-	e.r.Rule = "(a) exhaustive enumeration of all placements of small material classes (both sides to move, structurally valid): IsCheckmate/IsStalemate vs legal-move count, in Go; (b) valid, ep-normalised positions from the dense/clustered generators: implementation vs Lean model of IsCheckmate/IsStalemate vs rule-book spec (inCheck, no legal move); non-trivial = position that is in check, or has no legal move, or has a pin candidate or an ep target; distinct by FEN"
+	e.r.Rule = "(a) exhaustive enumeration of all placements of small material classes (both sides to move, structurally valid): IsCheckmate/IsStalemate vs legal-move count, in Go; (a') the king-net generator and the near-stalemate-net generator (immobile king of either colour, only candidate movers 0-3 pawns [blocked/free push, capture targets, man on a rook pawn's wrap-around square, file/diagonal/rank pin, en passant] or one knight/bishop/rook/queen [pinned/smothered], plus single-square toggles of each net), same check in Go; (b) valid, ep-normalised positions from the dense/clustered generators and the kept king-net / stalemate-net positions: implementation vs Lean model of IsCheckmate/IsStalemate vs rule-book spec (inCheck, no legal move); non-trivial = position that is in check, or has no legal move, or has a pin candidate or an ep target; distinct by FEN"
 	// (a) exhaustive small material, property-level only (fast)
 	classes := [][]int8{{posgen.Q}, {posgen.R}, {posgen.P}, {posgen.B}, {posgen.N}, {posgen.Q + 8}}
 	if e.c.Thorough() {
@@ -765,12 +765,19 @@ func (e *env) c09() {
 			e.r.Nontrivial(fen)
 		}
 	}
+	// (a'') the near-stalemate nets (immobile king, the only candidate movers are 0-3 pawns or one
+	// piece, both colours), property-level in Go on every sample; stalemates and positions where a
+	// single man owns all the legal moves are kept for the three-way comparison in (b)
+	nKingnet := len(kept)
+	kept = append(kept, e.c09StaleNets(e.c.Pick(100000, 1500000), e.c.Pick(4000, 60000))...)
 	// (b) three-way on generated positions
 	n := e.c.Pick(2500, 150000) + len(kept)
 	for i := 0; i < n; i++ {
 		var fen, src string
-		if i < len(kept) {
+		if i < nKingnet {
 			fen, src = kept[i], "kingnet-kept"
+		} else if i < len(kept) {
+			fen, src = kept[i], "stalenet-kept"
 		} else {
 			fen, src = e.s.Next()
 		}
@@ -827,6 +834,186 @@ func (e *env) c09() {
 			e.r.Sample(map[string]any{"fen": fen, "impl": impl, "model+spec": ans}, 3)
 		}
 	}
+}
+
+// c09StaleNets runs the near-stalemate-net generator (posgen.StaleNet) and the hand-written corpus of
+// the class: IsStalemate (IsCheckmate when in check) against the legal-move count, in Go.  An
+// en-passant target that is not sound or not capturable is dropped (the position stays in the class
+// "en-passant not available").  The histogram counts the samples per mover class, per colour, the real
+// stalemates / one-move positions, and for the positions whose legal moves all belong to one man the
+// kind of that man ("this piece kind decides"), pawns split by push / capture / en-passant.
+func (e *env) c09StaleNets(families, keepMax int) (kept []string) {
+	kindName := map[Piece]string{Pawn: "pawn", Knight: "knight", Bishop: "bishop", Rook: "rook", Queen: "queen", King: "king"}
+	aligned := func(a, k int) bool {
+		df, dr := a%8-k%8, a/8-k/8
+		return df == 0 || dr == 0 || df == dr || df == -dr
+	}
+	// eval returns 1 for a stalemate, 0 for a position with a legal move, -1 if not evaluated
+	eval := func(p posgen.Pos, class, variant string) int {
+		fen := p.FEN()
+		b, err := board.FromFEN(fen)
+		if err != nil {
+			return -1
+		}
+		legalMoves := implutil.Legal(b)
+		if p.EP != 0 {
+			epOK := p.EPSound()
+			if epOK {
+				epOK = false
+				for _, m := range legalMoves {
+					if m.To() == b.EnPassant && b.SquaresToPiece[m.From()] == Pawn {
+						epOK = true
+					}
+				}
+			}
+			if !epOK {
+				e.r.Count("stalenet-ep-dropped", 1)
+				p.EP = 0
+				fen = p.FEN()
+				if b, err = board.FromFEN(fen); err != nil {
+					return -1
+				}
+				legalMoves = implutil.Legal(b)
+			} else {
+				e.r.Count("stalenet-ep-target", 1)
+			}
+		}
+		legal := len(legalMoves)
+		e.r.Evaluations++
+		e.r.Count("stalenet", 1)
+		e.r.Count("stalenet-class-"+class, 1)
+		e.r.Count("stalenet-variant-"+variant, 1)
+		if p.Black {
+			e.r.Count("stalenet-black-to-move", 1)
+		}
+		if b.InCheck(b.STM) { // the generator rejects these; kept for completeness
+			e.r.Count("stalenet-in-check", 1)
+			if b.IsCheckmate() != (legal == 0) {
+				e.r.Fail(common.Mismatch{Property: "C09", Kind: "failing-input", Ops: []string{"fen " + fen, "state"},
+					Impl: fmt.Sprintf("IsCheckmate=%v legal=%d", b.IsCheckmate(), legal), Note: "stalenet " + class + " " + variant})
+			}
+			return -1
+		}
+		k := p.KingSq(p.Black)
+		up := 1
+		if p.Black {
+			up = -1
+		}
+		own := func(s int, kd int8) bool {
+			m := p.Men[s]
+			return m != 0 && (m > 8) == p.Black && m&7 == kd
+		}
+		enemy := func(s int) bool { return p.Men[s] != 0 && (p.Men[s] > 8) != p.Black }
+		// one man owns every legal move?
+		oneMover, kingMoves := legal > 0, 0
+		for _, m := range legalMoves {
+			if m.From() != legalMoves[0].From() {
+				oneMover = false
+			}
+			if b.SquaresToPiece[m.From()] == King {
+				kingMoves++
+			}
+		}
+		if kingMoves == 0 {
+			e.r.Count("stalenet-king-immobile", 1)
+		}
+		keep := false
+		switch {
+		case legal == 0:
+			keep = true
+			e.r.Count("stalenet-stalemate", 1)
+			e.r.Count("stalenet-stalemate-"+class, 1)
+			// a rook pawn of the side to move with an enemy man on a wrap-around square of its captures
+			for s := 0; s < 64; s++ {
+				if !own(s, posgen.P) || (s%8 != 0 && s%8 != 7) {
+					continue
+				}
+				for _, off := range []int{0, 2} {
+					if r := s/8 + up*off; r >= 0 && r < 8 && enemy(r*8+7-s%8) {
+						e.r.Count("stalenet-stalemate-rookpawn-wrapman", 1)
+						if !aligned(s, k) {
+							e.r.Count("stalenet-stalemate-rookpawn-wrapman-unaligned", 1)
+						}
+					}
+				}
+			}
+		case oneMover:
+			keep = true
+			if legal == 1 {
+				e.r.Count("stalenet-one-move", 1)
+			}
+			from := int(legalMoves[0].From())
+			kd := b.SquaresToPiece[from]
+			name := kindName[kd]
+			if kd == Pawn {
+				sub := map[string]bool{}
+				for _, m := range legalMoves {
+					switch {
+					case m.To() == b.EnPassant && b.EnPassant != 0:
+						sub["ep"] = true
+					case b.SquaresToPiece[m.To()] != NoPiece:
+						sub["capture"] = true
+					default:
+						sub["push"] = true
+					}
+				}
+				for _, x := range []string{"push", "capture", "ep"} {
+					if sub[x] {
+						name += "-" + x
+					}
+				}
+				if from%8 == 0 || from%8 == 7 {
+					e.r.Count("stalenet-decider-rookpawn", 1)
+					if sub["capture"] && !sub["push"] && !sub["ep"] {
+						e.r.Count("stalenet-decider-rookpawn-capture-only", 1)
+						if !aligned(from, k) {
+							e.r.Count("stalenet-decider-rookpawn-capture-only-unaligned", 1)
+						}
+					}
+				}
+			}
+			e.r.Count("stalenet-decider-"+name, 1)
+			if aligned(from, k) && kd != King {
+				e.r.Count("stalenet-decider-aligned-with-king", 1)
+			}
+		}
+		sm := b.IsStalemate()
+		if sm != (legal == 0) {
+			e.r.Count("stalenet-mismatch", 1)
+			e.r.Fail(common.Mismatch{Property: "C09", Kind: "failing-input", Ops: []string{"fen " + fen, "state"},
+				Impl: fmt.Sprintf("IsStalemate=%v legal=%d", sm, legal), Note: "stalenet " + class + " " + variant})
+		}
+		if keep && len(kept) < keepMax {
+			kept = append(kept, fen)
+			e.r.Nontrivial(fen)
+		}
+		if legal == 0 {
+			return 1
+		}
+		return 0
+	}
+	for _, fen := range posgen.StaleCorpusFENs() {
+		if p, ok := posgen.Parse(fen); ok {
+			eval(p, "corpus", "base")
+		}
+	}
+	for i := 0; i < families; i++ {
+		fam := posgen.StaleNet(e.c.Rng)
+		if len(fam) == 0 {
+			e.r.Count("stalenet-draw-failed", 1)
+			continue
+		}
+		base := -1
+		for j, sc := range fam {
+			v := eval(sc.Pos, sc.Class, sc.Variant)
+			if j == 0 {
+				base = v
+			} else if v >= 0 && base >= 0 && v != base {
+				e.r.Count("stalenet-family-flip", 1) // the toggle turned a stalemate into a non-stalemate or back
+			}
+		}
+	}
+	return kept
 }
 
 func (e *env) exhaustive(extra []int8) {
